@@ -442,11 +442,67 @@ LEAK_REASONED = {
          lambda prog: _window_aligned(prog)),
     ("hdr_get_NC_attr", "name<-hdr_get_NC_name()"): ("as hdr_get_NC_dim", lambda prog: _window_aligned(prog)),
     ("hdr_get_NC_var", "name<-hdr_get_NC_name()"): ("as hdr_get_NC_dim", lambda prog: _window_aligned(prog)),
+    ("write_NC", "buf<-malloc()"):
+        ("the only exit that skips the release follows a failing ncmpio_hdr_put_NC; the only non-zero status any function of "
+         "the encoder's call tree assigns or returns is NC_EINTOVERFLOW (a count, length or size that does not fit the format's "
+         "word; the primitives ncmpix_put_uint32/uint64/putn_text return NC_NOERR on every path), and such values are refused "
+         "when they are defined (def_dim, put_att, def_var and the record-index check of put: tried, record 2^32 of a CDF-2 "
+         "file is NC_EINVALCOORDS), so no header that reaches enddef makes the encoder fail",
+         lambda prog: _encoder_total(prog)),
 }
 # functions over the release analysis' state budget (see C19): assumed to capture their arguments, not reported on
 LEAK_BUDGET_SKIPS = {"extract_reqs", "get_varm", "igetput_varn", "intra_node_aggregation", "mgetput", "ncmpi_open", "ncmpio__enddef",
                      "ncmpio_cancel", "ncmpio_igetput_varm", "ncmpio_inq_misc", "ncmpio_put_att", "ncmpio_set_pnetcdf_hints", "put_varm",
                      "req_aggregation", "req_commit", "utf8proc_normalize_utf32"}
+
+
+def _encoder_total(prog):
+    """the only non-zero constant a function reachable from ncmpio_hdr_put_NC assigns to a status variable or returns is
+    NC_EINTOVERFLOW"""
+    allowed = set()
+    for u in prog.units.values():
+        if "NC_EINTOVERFLOW" in u.macros:
+            try:
+                allowed.add(int(u.macros["NC_EINTOVERFLOW"].strip("() "), 0))
+            except ValueError:
+                pass
+            break
+    if not allowed:
+        return False
+    from callgraph import CallGraph
+    cg = CallGraph(prog)
+    # the callees whose result is consulted (assigned or returned), transitively
+    tree, todo = set(), ["ncmpio_hdr_put_NC"]
+    while todo:
+        n = todo.pop()
+        if n in tree:
+            continue
+        tree.add(n)
+        for fn in prog.fns(n):
+            for b, i, e in fn.elements():
+                s_ = strip(e)
+                if isinstance(s_, dict) and s_.get("k") in ("asg", "ret"):
+                    r = strip_pre(s_.get("b") if s_.get("k") == "asg" else s_.get("e"))
+                    if isinstance(r, dict) and r.get("k") == "call" and r.get("fn"):
+                        todo.append(r["fn"])
+    if len(tree) < 8:
+        return False
+    for fn in prog.all_functions():
+        if fn.name not in tree:
+            continue
+        for b, i, e in fn.elements():
+            s_ = strip(e)
+            if not isinstance(s_, dict):
+                continue
+            if s_.get("k") == "ret" and s_.get("e") is not None:
+                v = const_value(s_["e"])
+                if v is not None and v != 0 and v not in allowed and fn.type(fn.ret).get("k") in ("int", "enum"):
+                    return False
+            if s_.get("k") == "asg" and canon(s_["a"]) in ("err", "status"):
+                v = const_value(s_["b"])
+                if v is not None and v != 0 and v not in allowed:
+                    return False
+    return True
 
 
 def _caller_tests(prog, callee, text):
